@@ -436,6 +436,9 @@ TrFmtParse == IsOp("fmt_parse") /\ KeepAll /\
              /\ X!Fields(X!UTC, e.v)[1] \in 1..9999
              /\ E.s = X!Render(pf.items, X!UTC, e.v, B!Zero))
             => (ok /\ EV(E.res) = e)
+        \* a well-formed sentence of an all-numeric format with a field out of range is an error
+        /\ (pf.ok /\ X!NumFormat(pf.items)) =>
+              LET mt == X!MatchNum(pf.items, E.s) IN (mt[1] /\ X!NumMustReject(pf.items, mt[2])) => ~ok
 
 (* "the ISO 8601 formatter output equals the default display" *)
 TrIsoVsDisplay == IsOp("iso_vs_display") /\ KeepAll /\ Has(E.iso, "v") /\ Has(E.disp, "v")
